@@ -41,6 +41,7 @@ type Cfg struct {
 	Stop    string `json:"stop,omitempty"`    // v1: "", stop, cancel, graceful
 	Mode    string `json:"mode,omitempty"`    // harness specific variant
 	Script  int    `json:"script,omitempty"`  // v1 add/remove script depth
+	Ops     []int  `json:"ops,omitempty"`     // v1 script: allowed operations (default all)
 	Fault   bool   `json:"fault,omitempty"`   // divider fault injection
 	Yields  int    `json:"yields,omitempty"`  // handler yields before release
 	OutCap  int    `json:"outcap,omitempty"`  // v1: capacity of the user supplied output channel
